@@ -109,3 +109,529 @@ fn c08_metadata_valid() {
     // (acceptance of valid buffers is not part of the property; the witnesses above show that
     // it is possible, including with an empty buffer)
 }
+
+// =============================================================================================
+// U layer: the real upper allocator over symbolic trees / slots and the REAL lower allocator
+// (geometry tree_huge_1: one tree = one huge frame, so a tree's exact free count is its huge
+// entry's counter and the accounting invariant needs no popcount).
+//
+// Invariant I_tree (DESIGN.md §3), assumed as pre-state and asserted as post-state:
+//   unreserved tree:  Tree.free == free frames of the tree in the lower allocator,
+//                     or the tree is offline (ghost): entirely free below, Tree.free == 0
+//   reserved tree:    exactly one present slot names it; Tree.free + slot.free == lower free;
+//                     policy(slot class, Tree.class) is Match or Demote (unreserve-safe)
+//   slots name distinct existing trees; classes stored in trees are configured.
+// =============================================================================================
+use crate::lower::verif_lower::{assume_block_instances, assume_inv};
+
+pub(crate) const NCL: usize = 3; // classes 0..NCL, one slot each (two for class 0 in some configs)
+
+#[derive(Clone, Copy, PartialEq, Eq)]
+pub(crate) enum Cfg {
+    Simple,   // classes 0,1 / default 1 / Classing::simple policy
+    Movable,  // classes 0,1,2 / default 2 / Classing::movable policy
+    Zeroed,   // classes 0,1,2 / default 1 / zeroed policy of the integration tests
+    ZeroSlot, // classes 0 (one slot) and 1 (NO slot) / default 1 / simple policy
+}
+pub(crate) fn classing_of(cfg: Cfg) -> Classing {
+    match cfg {
+        Cfg::Simple => Classing::simple(1).0,
+        Cfg::Movable => Classing::movable(1).0,
+        Cfg::Zeroed => Classing::new(&[(Class(0), 1), (Class(1), 1), (Class(2), 1)], Class(1), zeroed_policy),
+        Cfg::ZeroSlot => Classing::new(&[(Class(0), 1), (Class(1), 0)], Class(1), Classing::simple(1).0.policy),
+    }
+}
+fn ncls(cfg: Cfg) -> usize {
+    match cfg {
+        Cfg::Simple | Cfg::ZeroSlot => 2,
+        _ => 3,
+    }
+}
+fn slots_of(cfg: Cfg, c: usize) -> usize {
+    if c >= ncls(cfg) || (cfg == Cfg::ZeroSlot && c == 1) { 0 } else { 1 }
+}
+
+#[derive(Clone, Copy)]
+pub(crate) struct UModel<const NT: usize> {
+    pub lower: LModel<NT>,
+    pub tree: [(usize, bool, u8); NT],
+    pub slot: [(bool, usize, usize); NCL], // (present, row, free) of slot 0 of each class
+    pub off: [bool; NT],                   // ghost: tree is offline
+}
+/// The real `LLFree` over a symbolic lower state, typed tree entries and a slot buffer.
+pub(crate) fn build<'a, const NT: usize>(l: &'a LState<NT, NT>, trees: &'a TreeArr<NT>, lbuf: &'a mut [u8], frames: usize, classing: &Classing) -> LLFree<'a> {
+    LLFree {
+        locals: Locals::new(lbuf, classing).unwrap(),
+        lower: l.lower_exact(frames, NT),
+        trees: trees.trees(classing.default),
+        policy: classing.policy,
+    }
+}
+pub(crate) fn snapshot<const NT: usize>(a: &LLFree<'_>, l: &LState<NT, NT>, t: &TreeArr<NT>, cfg: Cfg, off: [bool; NT]) -> UModel<NT> {
+    let mut slot = [(false, 0, 0); NCL];
+    for c in 0..NCL {
+        if slots_of(cfg, c) > 0 {
+            slot[c] = get_slot(&a.locals, Class(c as u8), 0);
+        }
+    }
+    UModel { lower: l.snapshot(), tree: core::array::from_fn(|i| { let (f, r, c) = t.raw(i); (f, r, c.0) }), slot, off }
+}
+
+/// Establish an arbitrary I_tree state (writes symbolic trees and slots, assumes the invariant).
+pub(crate) fn any_inv_state<const NT: usize>(a: &LLFree<'_>, l: &LState<NT, NT>, t: &TreeArr<NT>, cfg: Cfg, frames: usize, allow_offline: bool) -> UModel<NT> {
+    let lm = l.snapshot();
+    assume_inv(&lm, frames);
+    let policy = a.policy;
+    let mut off = [false; NT];
+    // slots
+    let mut slot_tree = [usize::MAX; NCL];
+    for c in 0..NCL {
+        if slots_of(cfg, c) > 0 {
+            let present: bool = kani::any();
+            let tree: usize = kani::any();
+            let r: usize = kani::any();
+            let free: usize = kani::any();
+            kani::assume(tree < NT && r < crate::bitfield::verif_bitfield::NROWS && free <= TREE_FRAMES);
+            set_slot(&a.locals, Class(c as u8), 0, present, tree * (TREE_FRAMES / 64) + r, free);
+            if present {
+                slot_tree[c] = tree;
+            }
+        }
+    }
+    for c in 0..NCL {
+        for d in 0..NCL {
+            if c < d && slot_tree[c] != usize::MAX {
+                kani::assume(slot_tree[c] != slot_tree[d]);
+            }
+        }
+    }
+    for i in 0..NT {
+        let free: usize = kani::any();
+        let class: u8 = kani::any();
+        kani::assume(free <= TREE_FRAMES && (class as usize) < ncls(cfg));
+        let lfree = lm.count(i);
+        let mut holder = usize::MAX;
+        for c in 0..NCL {
+            if slot_tree[c] == i {
+                holder = c;
+            }
+        }
+        if holder != usize::MAX {
+            let sf = get_slot(&a.locals, Class(holder as u8), 0).2;
+            kani::assume(free + sf == lfree);
+            kani::assume(matches!(policy(Class(holder as u8), Class(class), sf), Policy::Match(_) | Policy::Demote));
+            t.set(i, free, true, Class(class));
+        } else {
+            let o: bool = kani::any();
+            if o && allow_offline {
+                kani::assume(lfree == TREE_FRAMES && free == 0);
+                off[i] = true;
+            } else {
+                kani::assume(free == lfree);
+            }
+            t.set(i, free, false, Class(class));
+        }
+    }
+    snapshot(a, l, t, cfg, off)
+}
+
+/// Assert I_tree on the current state (tagged C04) and that offline trees stay untouched (C15).
+pub(crate) fn check_inv_state<const NT: usize>(m: &UModel<NT>, cfg: Cfg, policy: PolicyFn) {
+    let mut slot_tree = [usize::MAX; NCL];
+    for c in 0..NCL {
+        if slots_of(cfg, c) > 0 && m.slot[c].0 {
+            let tr = m.slot[c].1 * 64 / TREE_FRAMES;
+            vassert!("C04", tr < NT, "a slot names an existing tree");
+            slot_tree[c] = tr;
+        }
+    }
+    for c in 0..NCL {
+        for d in 0..NCL {
+            if c < d && slot_tree[c] != usize::MAX {
+                vassert!("C04", slot_tree[c] != slot_tree[d], "no two slots reserve the same tree");
+            }
+        }
+    }
+    for i in 0..NT {
+        let (free, reserved, class) = m.tree[i];
+        let lfree = m.lower.count(i);
+        vassert!("C04", (class as usize) < ncls(cfg), "trees only carry configured classes");
+        let mut holder = usize::MAX;
+        for c in 0..NCL {
+            if slot_tree[c] == i {
+                holder = c;
+            }
+        }
+        if reserved {
+            vassert!("C04", holder != usize::MAX, "a reserved tree is named by a slot");
+            if holder != usize::MAX {
+                let sf = m.slot[holder].2;
+                vassert!("C04", free + sf == lfree, "slot counter plus tree counter equal the tree's free frames");
+                vassert!("C09", matches!(policy(Class(holder as u8), Class(class), sf), Policy::Match(_) | Policy::Demote), "a reservation can always be returned (class of slot and tree stay compatible)");
+            }
+        } else {
+            vassert!("C04", holder == usize::MAX, "a slot only names reserved trees");
+            if m.off[i] {
+                vassert!("C15", free == 0 && lfree == TREE_FRAMES, "an offline tree stays out of the fast count and entirely free");
+            } else {
+                vassert!("C04", free == lfree, "the fast counter of an unreserved tree equals its free frames");
+            }
+        }
+    }
+}
+
+fn umodel_unchanged<const NT: usize>(a: &UModel<NT>, b: &UModel<NT>) -> bool {
+    let mut ok = crate::lower::verif_lower::unchanged(&a.lower, &b.lower);
+    for i in 0..NT {
+        if a.tree[i] != b.tree[i] {
+            ok = false;
+        }
+    }
+    for c in 0..NCL {
+        if a.slot[c].0 != b.slot[c].0 || (a.slot[c].0 && (a.slot[c].1 * 64 / TREE_FRAMES != b.slot[c].1 * 64 / TREE_FRAMES || a.slot[c].2 != b.slot[c].2)) {
+            ok = false;
+        }
+    }
+    ok
+}
+fn any_cfg_class(cfg: Cfg) -> Class {
+    let c: u8 = kani::any();
+    kani::assume((c as usize) < ncls(cfg));
+    Class(c)
+}
+fn any_local(cfg: Cfg, class: Class) -> Option<usize> {
+    if slots_of(cfg, class.0 as usize) > 0 && kani::any() { Some(0) } else { None }
+}
+fn any_block(k: usize, frames: usize) -> usize {
+    let f: usize = kani::any();
+    kani::assume(f < (1 << 30) && f % (1 << k) == 0 && f + (1 << k) <= frames);
+    f
+}
+
+/// `LLFree::put` of one order from an arbitrary I_tree state.
+fn u_put_body<const NT: usize>(cfg: Cfg, k: usize, then_drain: bool) {
+    let (l, trees, mut lbuf) = (LState::<NT, NT>::any(), TreeArr::<NT>::zeroed(), Buf([0u8; 4 * 64]));
+    let frames = crate::lower::verif_lower::any_frames::<NT>();
+    let classing = classing_of(cfg);
+    let a = build(&l, &trees, &mut lbuf.0, frames, &classing);
+    let pre = any_inv_state(&a, &l, &trees, cfg, frames, true);
+    let f = any_block(k, frames);
+    assume_block_instances(&pre.lower, f, k);
+    let class = any_cfg_class(cfg);
+    let req = Request::new(k, class, any_local(cfg, class));
+    install(Mode::Seq);
+    let r = a.put(FrameId(f), req);
+    set_mode(Mode::Off);
+    let post = snapshot(&a, &l, &trees, cfg, pre.off);
+    let h = f / HUGE_FRAMES;
+    let held = if k >= HUGE_ORDER { pre.lower.huge_all(f, k, u16::MAX) } else { pre.lower.huge(h) || pre.lower.small_alloc(f, k) };
+    vcover!("C04", r.is_ok() && req.local.is_some() && pre.slot[class.0 as usize].0, "free through a slot that holds a reservation");
+    vcover!("C04", r.is_ok() && post.tree[f / TREE_FRAMES].0 == TREE_FRAMES, "tree becomes entirely free");
+    vassert!("C02", r.is_ok() == held, "a free succeeds exactly when every frame of the block is allocated (huge orders: allocated whole)");
+    match r {
+        Ok(()) => {
+            vassert!("C04", post.lower.count(f / TREE_FRAMES) == pre.lower.count(f / TREE_FRAMES) + (1 << k), "the lower layer got back exactly the freed frames");
+            if !then_drain {
+                check_inv_state(&post, cfg, a.policy);
+            }
+        }
+        Err(e) => {
+            vassert!("C02", e == Error::Memory, "a refused free reports out of memory");
+            vassert!("C02", umodel_unchanged(&pre, &post), "a failed free changes nothing");
+        }
+    }
+    if then_drain {
+        install(Mode::Seq);
+        a.drain();
+        set_mode(Mode::Off);
+        let post = snapshot(&a, &l, &trees, cfg, pre.off);
+        for c in 0..NCL {
+            vassert!("C10", !post.slot[c].0, "a drain empties every slot");
+        }
+        check_inv_state(&post, cfg, a.policy);
+    }
+    core::mem::forget(a);
+}
+
+/// One upper-level component from an arbitrary I_tree state.
+/// op: 0 get_local, 1 reserve_or_steal(i), 2 steal_global(i), 3 steal_local, 4 demote_local
+fn u_comp_body<const NT: usize>(cfg: Cfg, op: u8, k: usize, targeted: bool, cclass: u8) {
+    let (l, trees, mut lbuf) = (LState::<NT, NT>::any(), TreeArr::<NT>::zeroed(), Buf([0u8; 4 * 64]));
+    let frames = crate::lower::verif_lower::any_frames::<NT>();
+    let classing = classing_of(cfg);
+    let a = build(&l, &trees, &mut lbuf.0, frames, &classing);
+    let pre = any_inv_state(&a, &l, &trees, cfg, frames, true);
+    // (the slot-scanning components get a concrete request class: with a symbolic one every
+    // slot address becomes symbolic and the formula exceeds the memory cap)
+    let class = if cclass < 8 { Class(cclass) } else { any_cfg_class(cfg) };
+    let local = any_local(cfg, class);
+    let req = Request::new(k, class, local);
+    let target = any_block(k, frames);
+    let i: usize = kani::any();
+    kani::assume(i < NT);
+    let tgt = if targeted { Some(FrameId(target)) } else { None };
+    // completeness witness: an aligned block of order k in tree i / the target's tree
+    let wt = if targeted { target / TREE_FRAMES } else { i };
+    let p = any_block(k, frames);
+    kani::assume(p / TREE_FRAMES == wt);
+    assume_block_instances(&pre.lower, p, k);
+    if targeted {
+        assume_block_instances(&pre.lower, target, k);
+    }
+    install(Mode::Seq);
+    let r: Result<(FrameId, Class)> = match op {
+        0 => {
+            kani::assume(local.is_some());
+            a.get_local(k, class, 0, tgt, true).map_err(|(e, _)| e)
+        }
+        1 => {
+            // the caller (search_and_reserve) only runs for requests that name a slot
+            kani::assume(local.is_some());
+            a.reserve_or_steal(TreeId(i), k, class, 0)
+        }
+        2 => a.steal_global(TreeId(if targeted { target / TREE_FRAMES } else { i }), class, k, tgt),
+        3 => a.steal_local(&req, tgt),
+        _ => a.demote_local(&req, tgt),
+    };
+    set_mode(Mode::Off);
+    let post = snapshot(&a, &l, &trees, cfg, pre.off);
+    vcover!("C13", r.is_ok(), "component succeeds");
+    vcover!("C13", (op != 1 && op != 2 && !(op == 3 && cclass != 0)) || r.is_ok_and(|(_, c)| c != class), "component reports a class other than the requested one");
+    vcover!("C04", r.is_err(), "component fails");
+    match r {
+        Ok((f, c)) => {
+            crate::lower::verif_lower::check_alloc_effect(&pre.lower, &post.lower, f.0, k, frames);
+            vassert!("C02", !targeted || f.0 == target, "a targeted allocation returns exactly the requested frame");
+            vassert!("C15", !pre.off[f.0 / TREE_FRAMES], "no allocation returns a frame of an offline tree");
+            vassert!("C13", c == class || matches!((a.policy)(class, c, 1 << k), Policy::Match(_) | Policy::Steal), "the reported class is the requested one or one the policy rates as match or stealable");
+            vassert!("C13", (c.0 as usize) < ncls(cfg), "the reported class is configured");
+            check_inv_state(&post, cfg, a.policy);
+        }
+        Err(e) => {
+            vassert!("C02", e == Error::Memory, "a failed allocation reports out of memory");
+            vassert!("C02", crate::lower::verif_lower::unchanged(&pre.lower, &post.lower), "a failed allocation leaves the allocation status of every frame unchanged");
+            check_inv_state(&post, cfg, a.policy);
+            // completeness of the individual components (used by C10/C11)
+            let (tf, tres, tc) = pre.tree[wt];
+            let verdict = (a.policy)(class, Class(tc), 1 << k);
+            if op == 2 || op == 1 {
+                vassert!("C10", tres || tf < (1 << k) || verdict == Policy::Invalid || !pre.lower.block_free(p, k) || (targeted && !pre.lower.block_free(target, k)),
+                    "a global attempt on a tree fails only if the tree is reserved, counts too few frames, is unusable for the class, or has no suitable free block");
+            }
+            if op == 0 && !targeted {
+                let s = pre.slot[class.0 as usize];
+                if s.0 && s.1 * 64 / TREE_FRAMES == wt {
+                    vassert!("C11", s.2 + tf < (1 << k) || !pre.lower.block_free(p, k),
+                        "an allocation through the slot's reservation fails only if slot and tree together count too few frames or the tree has no suitable free block");
+                }
+            }
+        }
+    }
+    core::mem::forget(a);
+}
+
+// ---- generated: U-layer harnesses (2 trees, geometry tree_huge_1) ----
+
+// @h props=C02,C04,C09,C15 tier=quick geom=1 panics=C09 mem=C18
+#[kani::proof]
+#[kani::unwind(10)]
+fn u_put_zeroed_o0() {
+    u_put_body::<2>(Cfg::Zeroed, 0, false)
+}
+#[kani::proof]
+#[kani::unwind(10)]
+fn u_put_zeroed_o9() {
+    u_put_body::<2>(Cfg::Zeroed, 9, false)
+}
+#[kani::proof]
+#[kani::unwind(10)]
+fn u_put_zeroslot_o0() {
+    u_put_body::<2>(Cfg::ZeroSlot, 0, false)
+}
+
+// @h props=C09,C04,C10 tier=quick geom=1 panics=C09 mem=C18
+#[kani::proof]
+#[kani::unwind(10)]
+fn u_put_drain_zeroed_o0() {
+    u_put_body::<2>(Cfg::Zeroed, 0, true)
+}
+
+// @h props=C02,C04,C09,C15 tier=thorough geom=1 panics=C09 mem=C18
+#[kani::proof]
+#[kani::unwind(10)]
+fn u_put_movable_o3() {
+    u_put_body::<2>(Cfg::Movable, 3, false)
+}
+#[kani::proof]
+#[kani::unwind(10)]
+fn u_put_simple_o9() {
+    u_put_body::<2>(Cfg::Simple, 9, false)
+}
+#[kani::proof]
+#[kani::unwind(10)]
+fn u_put_zeroed_o6() {
+    u_put_body::<2>(Cfg::Zeroed, 6, false)
+}
+
+// @h props=C01,C02,C04,C09,C10,C11,C13,C15 tier=quick geom=1 panics=C09 mem=C18
+#[kani::proof]
+#[kani::unwind(10)]
+fn u_get_local_zeroed_o0() {
+    u_comp_body::<2>(Cfg::Zeroed, 0, 0, false, 8)
+}
+#[kani::proof]
+#[kani::unwind(10)]
+fn u_get_local_zeroed_o9() {
+    u_comp_body::<2>(Cfg::Zeroed, 0, 9, false, 8)
+}
+
+// @h props=C01,C02,C04,C09,C10,C11,C13,C15 tier=quick geom=1 panics=C09 mem=C18
+#[kani::proof]
+#[kani::unwind(10)]
+fn u_get_local_at_zeroed_o0() {
+    u_comp_body::<2>(Cfg::Zeroed, 0, 0, true, 8)
+}
+
+// @h props=C01,C02,C04,C09,C10,C11,C13,C15 tier=thorough geom=1 panics=C09 mem=C18
+#[kani::proof]
+#[kani::unwind(10)]
+fn u_get_local_zeroslot_o0() {
+    u_comp_body::<2>(Cfg::ZeroSlot, 0, 0, false, 8)
+}
+#[kani::proof]
+#[kani::unwind(10)]
+fn u_get_local_movable_o3() {
+    u_comp_body::<2>(Cfg::Movable, 0, 3, false, 8)
+}
+#[kani::proof]
+#[kani::unwind(10)]
+fn u_get_local_simple_o9() {
+    u_comp_body::<2>(Cfg::Simple, 0, 9, false, 8)
+}
+
+// @h props=C01,C02,C04,C09,C10,C11,C13,C15 tier=quick geom=1 panics=C09 mem=C18
+#[kani::proof]
+#[kani::unwind(10)]
+fn u_reserve_or_steal_zeroed_o0() {
+    u_comp_body::<2>(Cfg::Zeroed, 1, 0, false, 8)
+}
+#[kani::proof]
+#[kani::unwind(10)]
+fn u_reserve_or_steal_zeroed_o9() {
+    u_comp_body::<2>(Cfg::Zeroed, 1, 9, false, 8)
+}
+
+// @h props=C01,C02,C04,C09,C10,C11,C13,C15 tier=thorough geom=1 panics=C09 mem=C18
+#[kani::proof]
+#[kani::unwind(10)]
+fn u_reserve_or_steal_zeroslot_o0() {
+    u_comp_body::<2>(Cfg::ZeroSlot, 1, 0, false, 8)
+}
+#[kani::proof]
+#[kani::unwind(10)]
+fn u_reserve_or_steal_movable_o3() {
+    u_comp_body::<2>(Cfg::Movable, 1, 3, false, 8)
+}
+#[kani::proof]
+#[kani::unwind(10)]
+fn u_reserve_or_steal_simple_o9() {
+    u_comp_body::<2>(Cfg::Simple, 1, 9, false, 8)
+}
+
+// @h props=C01,C02,C04,C09,C10,C11,C13,C15 tier=quick geom=1 panics=C09 mem=C18
+#[kani::proof]
+#[kani::unwind(10)]
+fn u_steal_global_zeroed_o0() {
+    u_comp_body::<2>(Cfg::Zeroed, 2, 0, false, 8)
+}
+#[kani::proof]
+#[kani::unwind(10)]
+fn u_steal_global_zeroed_o9() {
+    u_comp_body::<2>(Cfg::Zeroed, 2, 9, false, 8)
+}
+
+// @h props=C01,C02,C04,C09,C10,C11,C13,C15 tier=quick geom=1 panics=C09 mem=C18
+#[kani::proof]
+#[kani::unwind(10)]
+fn u_steal_global_at_zeroed_o0() {
+    u_comp_body::<2>(Cfg::Zeroed, 2, 0, true, 8)
+}
+
+// @h props=C01,C02,C04,C09,C10,C11,C13,C15 tier=thorough geom=1 panics=C09 mem=C18
+#[kani::proof]
+#[kani::unwind(10)]
+fn u_steal_global_zeroslot_o0() {
+    u_comp_body::<2>(Cfg::ZeroSlot, 2, 0, false, 8)
+}
+#[kani::proof]
+#[kani::unwind(10)]
+fn u_steal_global_movable_o3() {
+    u_comp_body::<2>(Cfg::Movable, 2, 3, false, 8)
+}
+#[kani::proof]
+#[kani::unwind(10)]
+fn u_steal_global_simple_o9() {
+    u_comp_body::<2>(Cfg::Simple, 2, 9, false, 8)
+}
+
+// @h props=C01,C02,C04,C09,C10,C11,C13,C15 tier=quick geom=1 panics=C09 mem=C18
+#[kani::proof]
+#[kani::unwind(10)]
+fn u_steal_local_zeroed_c2_o0() {
+    u_comp_body::<2>(Cfg::Zeroed, 3, 0, false, 2)
+}
+
+// @h props=C01,C02,C04,C09,C10,C11,C13,C15 tier=quick geom=1 panics=C09 mem=C18
+#[kani::proof]
+#[kani::unwind(10)]
+fn u_steal_local_zeroed_c0_o0() {
+    u_comp_body::<2>(Cfg::Zeroed, 3, 0, false, 0)
+}
+
+// @h props=C01,C02,C04,C09,C10,C11,C13,C15 tier=thorough geom=1 panics=C09 mem=C18
+#[kani::proof]
+#[kani::unwind(10)]
+fn u_steal_local_zeroed_c2_o9() {
+    u_comp_body::<2>(Cfg::Zeroed, 3, 9, false, 2)
+}
+#[kani::proof]
+#[kani::unwind(10)]
+fn u_steal_local_at_zeroed_c2_o0() {
+    u_comp_body::<2>(Cfg::Zeroed, 3, 0, true, 2)
+}
+#[kani::proof]
+#[kani::unwind(10)]
+fn u_steal_local_zeroslot_c2_o0() {
+    u_comp_body::<2>(Cfg::ZeroSlot, 3, 0, false, 2)
+}
+
+// @h props=C01,C02,C04,C09,C10,C11,C13,C15 tier=quick geom=1 panics=C09 mem=C18
+#[kani::proof]
+#[kani::unwind(10)]
+fn u_demote_local_zeroed_c0_o0() {
+    u_comp_body::<2>(Cfg::Zeroed, 4, 0, false, 0)
+}
+
+// @h props=C01,C02,C04,C09,C10,C11,C13,C15 tier=quick geom=1 panics=C09 mem=C18
+#[kani::proof]
+#[kani::unwind(10)]
+fn u_demote_local_zeroed_c1_o0() {
+    u_comp_body::<2>(Cfg::Zeroed, 4, 0, false, 1)
+}
+
+// @h props=C01,C02,C04,C09,C10,C11,C13,C15 tier=thorough geom=1 panics=C09 mem=C18
+#[kani::proof]
+#[kani::unwind(10)]
+fn u_demote_local_zeroed_c0_o9() {
+    u_comp_body::<2>(Cfg::Zeroed, 4, 9, false, 0)
+}
+#[kani::proof]
+#[kani::unwind(10)]
+fn u_demote_local_at_zeroed_c0_o0() {
+    u_comp_body::<2>(Cfg::Zeroed, 4, 0, true, 0)
+}
+#[kani::proof]
+#[kani::unwind(10)]
+fn u_demote_local_zeroslot_c0_o0() {
+    u_comp_body::<2>(Cfg::ZeroSlot, 4, 0, false, 0)
+}
